@@ -1,5 +1,435 @@
-//! C08 - monitor not written yet.
+//! C08 - pkg_summary parsing accepts exactly complete well-formed entries,
+//! else says why.
+//!
+//! Refuting events: a fault-free text is rejected or yields wrong values
+//! (first `=` split, accumulation order, last-wins); a text with exactly one
+//! injected fault is accepted or reports a different cause; `is_completed()`
+//! differs from "all eleven set", or from whether the printed form of the
+//! same assignment parses.
+//!
+//! The expectation is known by construction (the generator knows the fault it
+//! injected); `oracle::summary::read` is only used to cross-check the
+//! generator itself, outside the case bodies.  Error *kinds* are compared
+//! (and *which* variable for `Incomplete`), never payload wording.
 
-use crate::fw::Cx;
+use crate::fw::{CaseResult, Cx, Ev, Tier};
+use crate::gen::summary::{self as gs, Fault, Pos};
+use crate::mon::c07::{apply, cause_of, same_values};
+use crate::oracle::summary::{self as os, Cause, Entry, Kind, Line, Val, NVARS, REQUIRED, VARS};
+use crate::rng::{hash_strs, Rng};
+use pkgsrc::summary::Summary;
+use std::str::FromStr;
 
-pub fn run(_cx: &mut Cx) {}
+fn causes_text(cs: &[Cause]) -> String {
+    cs.iter().map(|c| c.name()).collect::<Vec<_>>().join(" | ")
+}
+
+/// The text must be accepted with exactly the values of `want`.
+fn expect_accept(ev: &mut Ev, text: &str, want: &Entry) -> CaseResult {
+    ev.eval();
+    match Summary::from_str(text) {
+        Err(e) => {
+            let kind = cause_of(&e).map(|c| c.name()).unwrap_or_else(|| "Io".into());
+            Err(format!("fault-free text rejected with {kind}").into())
+        }
+        Ok(sum) => {
+            ev.eval();
+            same_values("parsed entry", &sum, want)?;
+            ev.eval();
+            if !sum.is_completed() {
+                return Err("accepted entry reports is_completed() == false".to_string().into());
+            }
+            Ok(())
+        }
+    }
+}
+
+/// The text must be rejected with one of the causes present in it.
+fn expect_reject(ev: &mut Ev, text: &str, accepted: &[Cause]) -> CaseResult {
+    ev.eval();
+    match Summary::from_str(text) {
+        Ok(_) => Err(format!(
+            "accepted although the text must be rejected ({})",
+            causes_text(accepted)
+        )
+        .into()),
+        Err(e) => match cause_of(&e) {
+            Some(c) if accepted.contains(&c) => Ok(()),
+            Some(c) => Err(format!(
+                "rejected with {} but the cause present is {}",
+                c.name(),
+                causes_text(accepted)
+            )
+            .into()),
+            None => Err(format!("rejected with an Io error; cause present is {}", causes_text(accepted)).into()),
+        },
+    }
+}
+
+struct Features {
+    repeat_single: bool,
+    repeat_multi: bool,
+    eq_in_value: bool,
+    empty_value: bool,
+    nlines: usize,
+}
+
+fn features(lines: &[Line]) -> Features {
+    let mut seen = [0usize; NVARS];
+    for l in lines {
+        seen[l.var] += 1;
+    }
+    Features {
+        repeat_single: (0..NVARS).any(|v| VARS[v].kind != Kind::A && seen[v] > 1),
+        repeat_multi: (0..NVARS).any(|v| VARS[v].kind == Kind::A && seen[v] > 1),
+        eq_in_value: lines.iter().any(|l| l.text.contains('=')),
+        empty_value: lines.iter().any(|l| l.text.is_empty()),
+        nlines: lines.len(),
+    }
+}
+
+fn count_features(ev: &mut Ev, f: &Features) {
+    if f.repeat_single {
+        ev.count("feature/repeated_single_valued");
+    }
+    if f.repeat_multi {
+        ev.count("feature/repeated_multi_line");
+    }
+    if f.eq_in_value {
+        ev.count("feature/eq_in_value");
+    }
+    if f.empty_value {
+        ev.count("feature/empty_value");
+    }
+    ev.max("max/lines", f.nlines as u64);
+}
+
+fn rendered(lines: &[Line]) -> Vec<String> {
+    lines.iter().map(|l| l.render()).collect()
+}
+
+/// Cross-check of the generator against the reference reader (harness
+/// self-test, outside the case bodies: a disagreement stops the harness).
+fn selfcheck_faulty(text: &str, causes: &[Cause]) {
+    let (_, found) = os::read(text);
+    assert!(!causes.is_empty(), "harness bug: faulty text without a cause");
+    for c in &found {
+        assert!(
+            causes.contains(c),
+            "harness bug: reference reader finds {} in {text:?}, generator declared {}",
+            c.name(),
+            causes_text(causes)
+        );
+    }
+    assert!(!found.is_empty(), "harness bug: reference reader finds no fault in {text:?}");
+}
+
+fn selfcheck_clean(text: &str, want: &Entry) {
+    let (e, found) = os::read(text);
+    assert!(found.is_empty() && e == *want, "harness bug: reference reader disagrees with fold on {text:?}");
+}
+
+fn base_complete(r: &mut Rng) -> (Vec<Line>, Entry) {
+    let (lines, _) = gs::wellformed(r, true);
+    let want = os::fold(&lines).expect("harness bug: generated integer line is not an integer");
+    assert!(want.is_complete(), "harness bug: complete text is not complete");
+    (lines, want)
+}
+
+pub fn run(cx: &mut Cx) {
+    cx.default_budget();
+    for v in REQUIRED {
+        cx.ev.require(&format!("removed/parse/{}", VARS[v].name));
+        cx.ev.require(&format!("removed/setter/{}", VARS[v].name));
+    }
+    for class in ["line", "variable", "int"] {
+        for p in Pos::ALL {
+            cx.ev.require(&format!("fault/{}/{}", class, p.name()));
+        }
+    }
+    for f in ["unknown", "misspelt", "case", "padded"] {
+        cx.ev.require(&format!("fault_flavour/variable/{f}"));
+    }
+    for f in [
+        "feature/repeated_single_valued",
+        "feature/repeated_multi_line",
+        "feature/eq_in_value",
+        "feature/empty_value",
+        "accept/with_final_newline",
+        "accept/without_final_newline",
+        "subsets/full",
+        "subsets/partial",
+    ] {
+        cx.ev.require(f);
+    }
+
+    // (a) fault-free complete texts: any order, repetitions
+    let n = cx.per_shard(24, 6_000, 96_000, 960_000);
+    let mut r = cx.stream("accept");
+    for _ in 0..n {
+        let (lines, want) = base_complete(&mut r);
+        let nl = r.chance(3, 4);
+        let text = gs::render(&rendered(&lines), nl);
+        selfcheck_clean(&text, &want);
+        let f = features(&lines);
+        cx.check(
+            || format!("fault-free text {text:?}"),
+            |ev| {
+                ev.count("workload/accept");
+                ev.count(if nl { "accept/with_final_newline" } else { "accept/without_final_newline" });
+                count_features(ev, &f);
+                expect_accept(ev, &text, &want)?;
+                if f.repeat_single || f.repeat_multi || f.eq_in_value {
+                    ev.nontrivial(hash_strs(&[text.as_bytes()]));
+                }
+                Ok(())
+            },
+        );
+    }
+
+    // (b) fault-free but incomplete texts (1-3 required variables never occur)
+    let n = cx.per_shard(8, 1_000, 16_000, 160_000);
+    let mut r = cx.stream("incomplete");
+    for _ in 0..n {
+        let (lines, left_out) = gs::wellformed(&mut r, false);
+        let text = gs::render(&rendered(&lines), true);
+        let causes: Vec<Cause> = left_out.iter().map(|&v| Cause::Missing(v)).collect();
+        selfcheck_faulty(&text, &causes);
+        cx.check(
+            || format!("text without {:?}: {text:?}", left_out.iter().map(|&v| VARS[v].name).collect::<Vec<_>>()),
+            |ev| {
+                ev.count("workload/incomplete");
+                ev.count(&format!("incomplete/missing{}", left_out.len()));
+                expect_reject(ev, &text, &causes)?;
+                ev.nontrivial(hash_strs(&[text.as_bytes()]));
+                Ok(())
+            },
+        );
+    }
+
+    // (c) each of the eleven required variables removed in turn (systematic)
+    let n = cx.per_shard(1, 250, 4_000, 40_000);
+    let mut r = cx.stream("removal");
+    for _ in 0..n {
+        let (lines, _) = base_complete(&mut r);
+        for var in REQUIRED {
+            let f = gs::inject(&mut r, &lines, &Fault::Remove(var), Pos::First);
+            let text = gs::render(&f.lines, true);
+            selfcheck_faulty(&text, &f.causes);
+            cx.check(
+                || format!("{} removed: {text:?}", VARS[var].name),
+                |ev| {
+                    ev.count("workload/removal");
+                    ev.count(&format!("removed/parse/{}", VARS[var].name));
+                    expect_reject(ev, &text, &f.causes)?;
+                    ev.nontrivial(hash_strs(&[text.as_bytes()]));
+                    Ok(())
+                },
+            );
+        }
+    }
+
+    // (d) exactly one inserted/replaced fault: class x position, round-robin
+    let n = cx.per_shard(1, 250, 4_000, 40_000);
+    let mut r = cx.stream("single-fault");
+    for _ in 0..n {
+        let (lines, _) = base_complete(&mut r);
+        for class in ["line", "variable", "int", "emptyname"] {
+            for pos in Pos::ALL {
+                let fault = gs::fault_of_class(&mut r, class);
+                let f = gs::inject(&mut r, &lines, &fault, pos);
+                let nl = r.chance(3, 4);
+                let text = gs::render(&f.lines, nl);
+                selfcheck_faulty(&text, &f.causes);
+                cx.check(
+                    || format!("{} at {} position: {text:?}", fault.show(), pos.name()),
+                    |ev| {
+                        ev.count("workload/single_fault");
+                        ev.count(&format!("fault/{}/{}", class, pos.name()));
+                        if let Fault::BadName(_, flavour) = &fault {
+                            ev.count(&format!("fault_flavour/variable/{flavour}"));
+                        }
+                        if let Fault::BadIntInsert(v, _) | Fault::BadIntReplace(v, _) = &fault {
+                            ev.count(&format!("fault_flavour/int/{}", VARS[*v].name));
+                        }
+                        expect_reject(ev, &text, &f.causes)?;
+                        ev.nontrivial(hash_strs(&[text.as_bytes()]));
+                        Ok(())
+                    },
+                );
+            }
+        }
+    }
+
+    // (e) several faults: rejected with one of the causes present
+    let n = cx.per_shard(4, 800, 12_000, 120_000);
+    let mut r = cx.stream("multi-fault");
+    for _ in 0..n {
+        let (lines, _) = base_complete(&mut r);
+        let nf = r.range(2, 3);
+        let mut out = rendered(&lines);
+        let mut causes: Vec<Cause> = vec![];
+        let mut shown = vec![];
+        for _ in 0..nf {
+            let class = *r.pick(&["line", "variable", "int", "missing"]);
+            match class {
+                "missing" => {
+                    let var = *r.pick(&REQUIRED);
+                    let prefix = format!("{}=", VARS[var].name);
+                    out.retain(|l| !l.starts_with(&prefix));
+                    causes.push(Cause::Missing(var));
+                    shown.push(format!("{} removed", VARS[var].name));
+                }
+                _ => {
+                    let fault = match gs::fault_of_class(&mut r, class) {
+                        // replacement is expressed as insertion here
+                        Fault::BadIntReplace(v, s) => Fault::BadIntInsert(v, s),
+                        f => f,
+                    };
+                    let line = match &fault {
+                        Fault::NoEq(s) | Fault::BadName(s, _) | Fault::EmptyName(s) => s.clone(),
+                        Fault::BadIntInsert(v, s) => format!("{}={}", VARS[*v].name, s),
+                        _ => unreachable!(),
+                    };
+                    let at = r.range(0, out.len());
+                    out.insert(at, line);
+                    causes.push(match class {
+                        "line" => Cause::Line,
+                        "variable" => Cause::Variable,
+                        _ => Cause::Int,
+                    });
+                    shown.push(fault.show());
+                }
+            }
+        }
+        let text = gs::render(&out, true);
+        selfcheck_faulty(&text, &causes);
+        cx.check(
+            || format!("faults [{}]: {text:?}", shown.join(", ")),
+            |ev| {
+                ev.count("workload/multi_fault");
+                expect_reject(ev, &text, &causes)?;
+                ev.nontrivial(hash_strs(&[text.as_bytes()]));
+                Ok(())
+            },
+        );
+    }
+
+    // (f) is_completed on every subset of the required variables set through
+    // the setters (exhaustive: 2^11), against the count rule and the parser.
+    let full: u32 = (1 << REQUIRED.len()) - 1;
+    let masks: Vec<u32> = match cx.tier {
+        Tier::Mini => {
+            let mut v = vec![0, full];
+            v.extend((0..REQUIRED.len()).map(|k| full & !(1 << k)));
+            v
+        }
+        _ => (0..=full).collect(),
+    };
+    let rounds = cx.pick_tier(1, 1, 2, 16);
+    let mut r = cx.shared_stream("subsets");
+    let mut case = 0u64;
+    for round in 0..rounds {
+        for &mask in &masks {
+            // the assignment: required ones by mask, optional ones at random
+            let mut m = Entry::new();
+            let mut ops = vec![];
+            for var in 0..NVARS {
+                let val = gs::val_for(&mut r, var);
+                let take = match REQUIRED.iter().position(|&q| q == var) {
+                    Some(k) => mask & (1 << k) != 0,
+                    None => r.chance(1, 4),
+                };
+                let by_push = r.chance(1, 2);
+                if !take {
+                    continue;
+                }
+                match (&val, by_push) {
+                    (Val::A(a), true) => {
+                        for s in a {
+                            ops.push(gs::Op::Push(var, s.clone()));
+                        }
+                    }
+                    _ => ops.push(gs::Op::Set(var, val.clone())),
+                }
+                m.set(var, val);
+            }
+            if round % 2 == 1 {
+                ops.reverse_blocks();
+            }
+            case += 1;
+            if !cx.mine(case) {
+                continue;
+            }
+            let missing = m.missing();
+            let causes: Vec<Cause> = missing.iter().map(|&v| Cause::Missing(v)).collect();
+            cx.check(
+                || {
+                    format!(
+                        "required subset {mask:011b} (unset: {:?}) through setters; assignment {:?}",
+                        missing.iter().map(|&v| VARS[v].name).collect::<Vec<_>>(),
+                        m.print()
+                    )
+                },
+                |ev| {
+                    ev.count("workload/subsets");
+                    ev.count(if mask == full { "subsets/full" } else { "subsets/partial" });
+                    if missing.len() == 1 {
+                        ev.count(&format!("removed/setter/{}", VARS[missing[0]].name));
+                    }
+                    let mut sum = Summary::new();
+                    for op in &ops {
+                        apply(&mut sum, op);
+                    }
+                    ev.eval();
+                    let done = sum.is_completed();
+                    if done != (mask == full) {
+                        return Err(format!(
+                            "is_completed() = {done} but {} of the eleven are set",
+                            REQUIRED.len() - missing.len()
+                        )
+                        .into());
+                    }
+                    // ... and against the parser on the printed form
+                    let text = sum.to_string();
+                    if mask == full {
+                        expect_accept(ev, &text, &m)?;
+                    } else {
+                        expect_reject(ev, &text, &causes).map_err(|f| {
+                            crate::fw::Fail::from(format!(
+                                "is_completed() = {done}, printed form {text:?}: {}",
+                                f.msg
+                            ))
+                        })?;
+                    }
+                    if mask != 0 && mask != full {
+                        ev.nontrivial(hash_strs(&[text.as_bytes(), &mask.to_le_bytes()]));
+                    }
+                    Ok(())
+                },
+            );
+        }
+    }
+}
+
+/// Reverse the order of the per-variable call blocks (pushes of one variable
+/// stay in order) - a second call order for the same assignment.
+trait ReverseBlocks {
+    fn reverse_blocks(&mut self);
+}
+
+impl ReverseBlocks for Vec<gs::Op> {
+    fn reverse_blocks(&mut self) {
+        let mut blocks: Vec<Vec<gs::Op>> = vec![];
+        for op in self.drain(..) {
+            match blocks.last_mut() {
+                Some(b) if b[0].var() == op.var() => b.push(op),
+                _ => blocks.push(vec![op]),
+            }
+        }
+        blocks.reverse();
+        for b in blocks {
+            self.extend(b);
+        }
+    }
+}
